@@ -139,9 +139,10 @@ def norm_regions(lst):
     for r in lst:
         if r.get("type") == "RectangularRegion":
             r = dict(r)
-            r["x1"], r["x2"] = sorted((float(r["x1"]), float(r["x2"])))
-            r["y1"], r["y2"] = sorted((float(r["y1"]), float(r["y2"])))
-        out.append(tuple(sorted((k, float(v) if isinstance(v, (int, float)) and not isinstance(v, bool) else v)
+            if not G.is_degenerate(dict(r, x1=float(r["x1"]), x2=float(r["x2"]), y1=float(r["y1"]), y2=float(r["y2"]))):
+                r["x1"], r["x2"] = sorted((float(r["x1"]), float(r["x2"])))
+                r["y1"], r["y2"] = sorted((float(r["y1"]), float(r["y2"])))
+        out.append(tuple(sorted((k, repr(float(v)) if isinstance(v, (int, float)) and not isinstance(v, bool) else v)
                                 for k, v in r.items())))
     return out
 
@@ -443,6 +444,11 @@ class World(object):
                 extra += " " + self._word("Z", z)
                 upd["z"] = z
             return "%s X%s Y%s %s%s" % ("G2" if cw else "G3", xw, yw, ij, extra), upd
+        if k == "CIRCLE":
+            # full circle around (x+I, y+J) without X/Y words: the same command text means a different circle
+            # wherever it is issued
+            ij = " ".join(w for w in ("I" + fmt(ev[1]) if ev[1] else "", "J" + fmt(ev[2]) if ev[2] else "") if w)
+            return "G3 " + ij, {}
         if k == "REL":
             return "G91", dict(abs=False)
         if k == "ABS":
@@ -474,7 +480,7 @@ class World(object):
         for i, ev in enumerate(menu):
             k = ev[0]
             if k in ("TRAVEL", "PRINT", "WIPE", "TRAVELZ", "ZMOVE", "XONLY", "YONLY", "ARC", "RETRACT",
-                     "RECOVER", "FWRETRACT", "FWRECOVER", "G92XYZ", "NUDGE", "ESET", "HOME"):
+                     "RECOVER", "FWRETRACT", "FWRECOVER", "G92XYZ", "NUDGE", "ESET", "HOME", "CIRCLE"):
                 if not (self.m_active and self.m_homed):
                     continue                               # the properties say "after homing"
             if k in ("TRAVEL", "PRINT", "WIPE"):
@@ -505,6 +511,8 @@ class World(object):
             if k == "FWRETRACT" and (f["fw"] or f["depth"] != 0):
                 continue
             if k == "FWRECOVER" and not f["fw"]:
+                continue
+            if k == "CIRCLE" and (not f["abs"] or f["inch"] or self.episode):
                 continue
             if k == "ARC" and len(ev) > 2 and "E" in ev[2] and (f["depth"] != 0 or f["fw"] or f["e"] >= emax):
                 continue
@@ -543,7 +551,7 @@ class World(object):
                     continue
                 if ev[2] is None and self.uuid.n >= self.cfg.get("maxfresh", 2):
                     continue
-            if k == "SET":
+            if k in ("SET", "SETBAD"):
                 cur = self.m_clear if ev[1].startswith("clear") else self.m_shrink
                 if cur == ev[2]:
                     continue
@@ -579,6 +587,19 @@ class World(object):
             self._event(ev[1], st)
         elif k == "SET":
             self._set(ev[1], ev[2], st)
+        elif k == "SETBAD":
+            # a settings save that also stores an @-command pattern the browser accepts but Python's re rejects:
+            # the plugin's handler raises on every settings update from now on (OctoPrint's event bus logs that and
+            # goes on); the stored value of the boolean is what must govern the behaviour
+            self._set_values(ev[1], ev[2])
+            self.sv.at = [a for a in self.sv.at if a.get("command") != "Broken"] + [
+                {"command": "Broken", "parameterPattern": "^\\s*(?<what>on|off)\\b", "action": "enable_exclusion",
+                 "description": ""}]
+            H.push_settings(self.plugin, self.sv)
+            try:
+                self.plugin.on_event(H.Events.SETTINGS_UPDATED, {})
+            except Exception:   # noqa  (logged by OctoPrint's event bus)
+                st.tags.add("settings-handler-raised")
         elif k == "SETEXT":
             # ev[1]: tuple of (gcode, mode) pairs replacing the configured list of extended codes
             self.sv.ext = [dict(gcode=g, mode=m, description="") for g, m in ev[1]]
@@ -765,7 +786,7 @@ class World(object):
             self.episode = False
         st.note = ("event", name, k0 == self.impl_key())
 
-    def _set(self, key, value, st):
+    def _set_values(self, key, value):
         if key.startswith("clear"):
             self.sv.clear = value
             self.m_clear = value
@@ -774,8 +795,17 @@ class World(object):
             self.m_shrink = value
         else:
             raise KeyError(key)
+
+    def _set(self, key, value, st):
+        self._set_values(key, value)
         H.push_settings(self.plugin, self.sv)
-        self.call(self.plugin.on_event, H.Events.SETTINGS_UPDATED, {})
+        if any(a.get("command") == "Broken" for a in self.sv.at):
+            try:
+                self.plugin.on_event(H.Events.SETTINGS_UPDATED, {})
+            except Exception:   # noqa  (a broken pattern is stored: the handler raises, OctoPrint logs it)
+                st.tags.add("settings-handler-raised")
+        else:
+            self.call(self.plugin.on_event, H.Events.SETTINGS_UPDATED, {})
 
     # ---- API
     def _api(self, op, rid, geo, anon, st, check=True):
@@ -788,7 +818,8 @@ class World(object):
         command = {"add": "addExcludeRegion", "upd": "updateExcludeRegion", "del": "deleteExcludeRegion"}[op]
         before_impl = self.regions_impl()
         k0 = self.impl_key()
-        resp = self.call(self.plugin.on_api_command, command, dict(data))
+        # every request body is decoded separately (fresh str/float objects), as a real HTTP request is
+        resp = self.call(self.plugin.on_api_command, command, json.loads(json.dumps(data)))
         H.set_user(False)
         # reference registry
         exp = None
@@ -1020,6 +1051,13 @@ class World(object):
             for c, a0, a1 in f.atrace:
                 moved_xy = a1.xy() != a0.xy()
                 moved = a1.xyz() != a0.xyz()
+                gc_, _, words_, _ = read(c)
+                if gc_ in ("G2", "G3") and f.enabled1 and f.kind != "script" and a0.p["X"] is not None:
+                    # a forwarded arc is motion along its whole path, not only to its end point
+                    pts_ = arc_points(a0, words_, gc_ == "G2")
+                    if pts_ is not None and any(float_inside(self.m_regions, x_, y_) for x_, y_ in pts_):
+                        self.viol("C01 forwarded arc %r (for %r) passes through a region (the printer is at (%s, %s))"
+                                  % (c, f.cmd, float(a0.p["X"]), float(a0.p["Y"])), self._detail(f))
                 if f.enabled1 and f.kind != "script" and moved_xy and self._inside(self.m_regions, a1.xy()):
                     self.viol("C01 tool moved into a region: forwarded %r (for %r) takes the printer to (%s, %s)"
                               % (c, f.cmd, float(a1.p["X"]), float(a1.p["Y"])), self._detail(f))
@@ -1570,6 +1608,8 @@ def no_relative_disable(w, ev):
 
 def G_lattice(g, step=Fr(1, 4), cap=400):
     """Lattice points of step 1/4 over the bounding box of region dict g (capped)."""
+    if G.is_degenerate(g):
+        return []
     if g["type"] == "RectangularRegion":
         x1, y1, x2, y2 = G.norm_rect(g)
     else:
